@@ -229,6 +229,17 @@ Definition class (p : prog) : oclass :=
 
 End Run.
 
+(* ---------- demand: a fault at item i of a lazy list whose consumer demands the first d items ---------- *)
+
+(* Sequential lazy semantics of the list stages: an item is computed only when a consumer asks for it; a
+   fault raised while item i is computed is the error of element i and travels down the chain WITH the
+   element - a stage that discards the element's value (skip, a rejecting accept, compact) must still pass
+   the error on.  So the fault is visible iff i lies in the demanded prefix:
+     skip(n), accept, compact, size, sum, [j] (AccessList evaluates the whole list): d = all;
+     top(n): d = n;  first(): d = 1;  indexWhere / present stopping at index j: d = j + 1. *)
+Definition demand (d i : N) (q : prog) : prog :=
+  if i <? d then PStage 1 q else PLeaf FValue.
+
 (* ---------- side conditions of the partial theorems ---------- *)
 
 (* no leaf exhausts the Go stack *)
